@@ -49,37 +49,6 @@ pub mod sets {
     { unimplemented!() }
 }
 
-// category.rs::get_category_group (a 37-arm `match` on `&str` literals) is outside Verus' reach (string-literal
-// patterns are not connected to the view of the scrutinee); it is checked by the Kani harness `category_names`
-// (thorough tier) and summarised here: known names map to the group `group_of(name)`, anything else is a Syntax error.
-pub uninterp spec fn category_known(name: Seq<char>) -> bool;
-pub uninterp spec fn group_of(name: Seq<char>) -> GeneralCategoryGroup;
-#[verifier::external_body]
-pub fn get_category_group(property: &str) -> (r: Result<GeneralCategoryGroup, Error>)
-    ensures
-        category_known(property@) ==> r == Ok::<GeneralCategoryGroup, Error>(group_of(property@)),
-        !category_known(property@) ==> r is Err && r->Err_0 is Syntax,
-{ unimplemented!() }
-
-// block table: `BlockLookup` (HashMap<String, &'static Block> built from block.rs::ALL_BLOCKS with spaces and
-// underscores removed from the names) summarised as a partial function name -> block; that the table equals
-// Blocks.txt + CompatBlocks.txt is data conformance (DESIGN: not decided by this family).
-pub uninterp spec fn block_known(name: Seq<char>) -> bool;
-pub uninterp spec fn block_start(name: Seq<char>) -> u32;
-pub uninterp spec fn block_end(name: Seq<char>) -> u32;
-#[verifier::external_body]
-pub struct BlockLookup { _p: core::marker::PhantomData<u8> }
-impl BlockLookup {
-    #[verifier::external_body]
-    pub fn lookup(&self, name: &str) -> (r: Result<&'static Block, Error>)
-        ensures
-            block_known(name@) ==> r is Ok && r->Ok_0.start == block_start(name@) && r->Ok_0.end == block_end(name@),
-            !block_known(name@) ==> r is Err && r->Err_0 is Syntax,
-    { unimplemented!() }
-}
-#[verifier::external_body]
-pub fn block_lookup() -> (r: &'static BlockLookup) { unimplemented!() }
-
 // R6f: `name == "PrivateUse"` (str equality with a literal)
 #[verifier::external_body]
 pub fn str_eq(a: &str, b: &str) -> (r: bool)
